@@ -113,6 +113,12 @@ std::string roundTrip(const Case &c, std::string &observer, StepFacts &facts) {
     if (!r.empty())
         return r;
     FileGuard fg{scratchFile(".txt")};
+    if (long long pf = c.geti("prefill", 0)) { // the output path already holds a file: a writer replaces it
+        std::ofstream old(fg.p, std::ios::trunc);
+        for (long long k = 0; k < (pf == 1 ? 1 : pf == 2 ? 3 : (long long)m.e.size() + 4); ++k)
+            old << (20 + k) << " " << (21 + k) << " 7\n";
+        facts.tag("output_path_holds_a_file");
+    }
     if constexpr (T::nolabel)
         IO<G>::writeNoLabel(g, fg.p);
     else
